@@ -33,7 +33,7 @@ def run(chk):
     try:
         add_models(chk, ["Naming:cache"])
         evs, refs = [], {}
-        for name, maxvar, stride in plans(chk.tier):
+        for name, maxvar, stride in progcheck.dev_filter(plans(chk.tier)):
             kw = dict(progcheck.CORPORA[name])
             keep = kw.pop("keep", None)
             kw.pop("observe_all", None)
